@@ -350,7 +350,8 @@ func (e *Engine) verifyFunctionOnce(ct *Contract, prop string, tier string) *fnR
 		variants = []Variant{{Name: ""}}
 	}
 	type vc struct {
-		header string
+		header string        // built lazily by mkHeader (thousands of paths: the texts are large)
+		mkHeader func() string
 		goals  []pathGoal
 		ex     *exitPath
 		pre    *State
@@ -478,7 +479,9 @@ func (e *Engine) verifyFunctionOnce(ct *Contract, prop string, tier string) *fnR
 			}
 			for pi, ex := range exits {
 				res.ByKind[ex.kind]++
-				preX := pre.clone()
+				px := *pre // shallow view of the entry state; what evaluating old() declares goes to the path's own state
+				px.sink = ex.st
+				preX := &px
 				env := &rEnv{e: e, pre: preX, post: ex.st, vars: copyVars(vars), typs: typs, specs: e.contracts.specs}
 				e.bindResults(env, fn, ex.ret)
 				for _, l := range ct.Lets {
@@ -549,6 +552,26 @@ func (e *Engine) verifyFunctionOnce(ct *Contract, prop string, tier string) *fnR
 					}
 					addGoal(o, g)
 				}
+				if os.Getenv("ROSVC_VACUITY") != "" && ex.kind == "return" {
+					// development aid: is the antecedent of every implication clause satisfiable on some path?
+					for _, cl := range ct.Ensures {
+						if cl.Node == nil || cl.Node.Op != "binary" || cl.Node.Text != "==>" || cl.On != "" || (cl.Only != "" && cl.Only != variant.Name) {
+							continue
+						}
+						env.pol = -1
+						a := env.term(cl.Node.Args[0])
+						env.pol = 0
+						if env.err != nil {
+							env.err = nil
+							continue
+						}
+						o := getObl("vacuity:"+cl.Name, "mustfail", "antecedent satisfiable: "+nodeText(cl.Node.Args[0]), cl.Props, cl.Line)
+						o.Paths++
+						if !a.IsFalse() {
+							goals = append(goals, pathGoal{obl: o, goal: Not(a), pathI: pi})
+						}
+					}
+				}
 				for _, cl := range ct.MustFail {
 					if !want(cl) && prop != "" {
 						continue
@@ -604,8 +627,8 @@ func (e *Engine) verifyFunctionOnce(ct *Contract, prop string, tier string) *fnR
 						}
 					}
 					extra = append(extra, "NULLB")
-					hdr := e.scriptHeader(ex.st, preX) + defs.String()
-					vcs = append(vcs, vc{header: hdr, goals: goals, ex: ex, pre: preX, extra: extra})
+					exSt, defsText := ex.st, defs.String()
+					vcs = append(vcs, vc{mkHeader: func() string { return e.scriptHeader(exSt, preX) + defsText }, goals: goals, ex: ex, pre: preX, extra: extra})
 				}
 			}
 		}
@@ -647,7 +670,8 @@ func (e *Engine) verifyFunctionOnce(ct *Contract, prop string, tier string) *fnR
 				gts = append(gts, g.goal)
 			}
 			e.instantiateAll(sst, nil, gts)
-			vcs = append(vcs, vc{header: e.scriptHeader(sst, nil), goals: gs})
+			sstC := sst
+			vcs = append(vcs, vc{mkHeader: func() string { return e.scriptHeader(sstC, nil) }, goals: gs})
 		}
 	}
 	e.sideObls = nil
@@ -658,6 +682,9 @@ func (e *Engine) verifyFunctionOnce(ct *Contract, prop string, tier string) *fnR
 	mfRefuted := map[string]bool{}
 	parallel(len(vcs), e.workers, func(i int) {
 		v := vcs[i]
+		if v.mkHeader != nil {
+			v.header = v.mkHeader()
+		}
 		gs := make([]Term, len(v.goals))
 		for j, g := range v.goals {
 			gs[j] = g.goal
@@ -776,7 +803,11 @@ func (e *Engine) verifyFunctionOnce(ct *Contract, prop string, tier string) *fnR
 			}
 			if o.FailSMT == "" || r.Status == "sat" {
 				o.Model = r.Model
-				o.FailSMT = v.header + fmt.Sprintf("(assert (not %s))\n(check-sat)\n", g.goal.S)
+				hdr := v.header
+				if hdr == "" && v.mkHeader != nil {
+					hdr = v.mkHeader()
+				}
+				o.FailSMT = hdr + fmt.Sprintf("(assert (not %s))\n(check-sat)\n", g.goal.S)
 				if v.ex != nil {
 					o.FailPath = describePath(v.ex)
 				}
